@@ -60,9 +60,21 @@ def check(tier, seed, t0):
                                         "than an earlier identical call (other process / pool size / repetition), or a family result has "
                                         "the wrong area", "event_index": rejected["index"], "seed": seed}})
     runs = [res, tres]
+    # design level: the worker-pool / map-iteration model; only index-ordered merge + sorted iteration satisfies the property
+    design = {}
+    for m, i, expect_ok in (("index", "sorted", True), ("completion", "sorted", False), ("index", "hash", False)):
+        d = vf.run_tlc("C20_design_%s_%s" % (m, i), "Determinism",
+                       dict(constants=dict(W=3, C=4 if tier == "quick" else 5, Merge=m, Iter=i),
+                            invariants=["ResultIsFunctionOfInput", "EveryChunkOnce"]), workers=4, timeout=900)
+        violated = any("ResultIsFunctionOfInput" in e for e in d["errors"])
+        if d["distinct"] is None or violated == expect_ok:
+            raise vf.ToolError("design model Determinism(%s,%s): expected %s" % (m, i, "no violation" if expect_ok else "a violation"))
+        design["%s/%s" % (m, i)] = {"states": d["distinct"], "ResultIsFunctionOfInput": "holds" if not violated else "violated (as expected)"}
+        if expect_ok:
+            runs.append(d)
     cov = {"states": sum(r["distinct"] for r in runs), "transitions": sum(r["generated"] for r in runs),
            "traces_validated_against_impl": 1, "samples": samples, "evaluations": nev, "distinct_nontrivial": len(per_key),
-           "rule": RULE, "processes": nproc, "thread_counts": threads, "events_by_operation": keys, "family_events": fam_events,
+           "rule": RULE, "processes": nproc, "thread_counts": threads, "events_by_operation": keys, "family_events": fam_events, "design_model": design,
            "checks_passed_by_kind": {"events_accepted": (rejected["index"] - 1) if rejected else nev},
            "checks_failed_by_kind": {"trace_rejected": 1} if rejected else {}, "tlc_runs": vf.tlc_summary(runs)}
     vf.finish("C20", tier, seed, "model_checking", cov, ASSUME, t0, mism)
